@@ -1,10 +1,158 @@
-(* C19 -- Sleeper/Waker never lose or invent a wake-up.  (theorems under construction) *)
+(* C19 -- Sleeper/Waker never lose or invent a wake-up.
+
+   Model: Model/Sleep.v (transition system of pkg/sleep/sleep_unsafe.go at the granularity of its
+   atomic operations; thread 0 owns the Sleeper, any number of threads call Assert / Clear /
+   IsAsserted).  [reachable st] = st is reached from zero-valued Sleeper / Wakers by SOME client
+   programs (any number of threads, any API calls; the client contract is built into the model:
+   only thread 0 calls AddWaker / Fetch / Done, and AddWaker(w) only for w not currently attached)
+   under SOME schedule.  Every theorem below is over all such states / runs.  Each theorem is closed
+   by [exact] of a lemma of Proofs/SleepP.v; the invariant behind them is [inv]
+   (Proofs/SleepBaseP.v), proved inductive in Proofs/SleepInvP.v and Proofs/SleepInv2P.v.
+
+   Clause of the property text                         theorem
+   "asserting a waker several times before it is       C19_queued_once (a waker occurs at most once in
+    fetched yields one notification"                    sharedList ++ localList, is then switched away
+                                                        from the sleeper and nobody is enqueuing it),
+                                                        C19_fetch_sound (one Fetch per arming)
+   "the identifiers it returns are only those of       C19_fetch_sound
+    wakers that were asserted since they were last
+    returned or cleared"
+   "if a waker attached to a sleeper is asserted       C19_no_lost_wakeup, C19_not_stuck,
+    and not cleared, a blocking fetch returns (does     C19_wakeup_is_near (PARTIAL as a liveness claim:
+    not sleep forever)"                                 no reachable stuck state + the wake-up is at most
+                                                        6 solo steps of one identified thread away; that
+                                                        the Fetch then returns needs a fair scheduler and
+                                                        is not stated as a temporal theorem)
+   "a non-blocking fetch reports nothing only if no    C19_nonblocking_fetch_complete (completed = pushed);
+    attached waker has a completed, unconsumed          C19_nonblocking_fetch_api_refuted: with
+    assertion"                                          completed = "some Assert call returned" the clause
+                                                        is false of the code (an Assert that finds the
+                                                        waker already asserted returns before the
+                                                        asserting call has pushed)
+   "after Done returns, no waker can touch the         C19_done_detaches, C19_done_detaches_stays,
+    sleeper again and each waker can be attached to     C19_done_can_reattach
+    a new sleeper"
+   the re-check of sharedList is necessary             C19_no_recheck_refuted, C19_recheck_saves
+   non-vacuity                                         C19_classic_window_handled (the classic window),
+                                                        C19_parked_with_asserted_reachable,
+                                                        C19_done_race_example
+   the model's panic / spin branches are dead          C19_no_panic *)
 From Coq Require Import ZArith Bool List.
-From NP Require Import Model.Sleep Proofs.SleepP.
+From NP Require Import Model.Sleep Model.SleepSpec Proofs.SleepBaseP Proofs.SleepP.
 Import ListNotations.
 
+(* queued_once -- full *)
+Theorem C19_queued_once : forall st, reachable st ->
+  NoDup (shared st ++ local st) /\
+  forall w, In w (shared st ++ local st) ->
+    ws st w <> WSlp /\ (forall t, pusherb w (pc_of st t) = false) /\ heldb w (pc_of st 0) = false.
+Proof. exact queued_once_lemma. Qed.
+Print Assumptions C19_queued_once.
+
+(* fetch_sound -- full: the event monitor of Model/SleepSpec.v (a waker is armed from an Assert's
+   switch until it is returned by Fetch or successfully cleared; a Fetch return is accepted only
+   for an armed waker and with the id of its last AddWaker) accepts every run *)
+Theorem C19_fetch_sound : forall ps sched st evs,
+  run (init ps) sched = Some (st, evs) -> fetch_monitor evs = true.
+Proof. exact fetch_sound_lemma. Qed.
+Print Assumptions C19_fetch_sound.
+
+(* no_lost_wakeup -- full (safety form) *)
+Theorem C19_no_lost_wakeup : forall st, reachable st -> parked_in_fetch st ->
+  wg st = GPark /\ local st = [] /\
+  forall w, attached st w -> ws st w = WAst ->
+    (exists t, t <> 0 /\ enqueuing st t w) \/
+    (In w (shared st) /\ exists t, t <> 0 /\ signalling st t).
+Proof. exact no_lost_wakeup_lemma. Qed.
+Print Assumptions C19_no_lost_wakeup.
+
+Theorem C19_not_stuck : forall st, reachable st -> parked_in_fetch st -> quiet st ->
+  forall w, attached st w -> ws st w <> WAst.
+Proof. exact not_stuck_lemma. Qed.
+Print Assumptions C19_not_stuck.
+
+(* liveness, partial: the thread that will goready is identified and at most 6 of its own steps away *)
+Theorem C19_wakeup_is_near_partial : forall st b w, reachable st ->
+  pc_of st 0 = PNwParked (CFetch b) -> attached st w -> ws st w = WAst ->
+  exists t n st', t <> 0 /\ n <= 6 /\ solo st t n = Some st' /\
+     pc_of st' 0 = PNwLoad1 (CFetch b) /\ wg st' = G0 /\ In w (shared st').
+Proof. exact wakeup_is_near_lemma. Qed.
+Print Assumptions C19_wakeup_is_near_partial.
+
+(* nonblocking_fetch_complete -- full with completed = pushed *)
+Theorem C19_nonblocking_fetch_complete : forall st st' evs t', reachable st ->
+  step_ev st 0 = Some (st', evs) -> In (ERetFetchNone t') evs ->
+  shared st = [] /\ local st = [] /\
+  forall w, attached st w -> ws st w = WAst -> exists t, enqueuing st t w.
+Proof. exact nonblocking_fetch_lemma. Qed.
+Print Assumptions C19_nonblocking_fetch_complete.
+
+Theorem C19_nonblocking_fetch_api_refuted :
+  exists ps sched st pre,
+    run (init ps) sched = Some (st, pre ++ [ERetFetchNone 0]) /\
+    In (ERetAdd 0 0) pre /\ In (ERetAssert 2 0) pre /\
+    (forall t w id, ~ In (ERetFetch t w id) pre) /\ (forall t w b, ~ In (ERetClear t w b) pre) /\
+    attached st 0 /\ ws st 0 = WAst /\ enqueuing st 1 0.
+Proof. exact nonblocking_fetch_api_refuted. Qed.
+Print Assumptions C19_nonblocking_fetch_api_refuted.
+
+(* done_detaches -- full *)
+Theorem C19_done_detaches : forall st st' evs t', reachable st ->
+  step_ev st 0 = Some (st', evs) -> In (ERetDone t') evs -> detached_all st'.
+Proof. exact done_detaches_lemma. Qed.
+Print Assumptions C19_done_detaches.
+
+Theorem C19_done_detaches_stays : forall sched st st' evs, reachable st -> detached_all st ->
+  (forall t, In t sched -> t <> 0) -> run st sched = Some (st', evs) -> detached_all st'.
+Proof. exact detached_stays. Qed.
+Print Assumptions C19_done_detaches_stays.
+
+Theorem C19_done_can_reattach : forall st w id r, detached_all st -> 0 < length (pcs st) ->
+  prog_of st 0 = OAdd w id :: r ->
+  exists st' evs, step_ev st 0 = Some (st', evs) /\ pc_of st' 0 = PAwLoad w /\ attached st' w.
+Proof. exact detached_can_add. Qed.
+Print Assumptions C19_done_can_reattach.
+
+(* the re-check *)
 Theorem C19_no_recheck_refuted :
-  exists ps sched st evs,
-    run_gen false (init ps) sched = Some (st, evs) /\ lost_wakeup_state st.
+  exists ps sched st evs, run_gen false (init ps) sched = Some (st, evs) /\ lost_wakeup st evs.
 Proof. exact no_recheck_refuted_lemma. Qed.
 Print Assumptions C19_no_recheck_refuted.
+
+Theorem C19_recheck_saves : exists st evs,
+  run (init [[OAdd 0 7%Z; OFetch true]; [OAssert 0]]) [0; 0; 0; 0; 0; 1; 1; 1; 1; 1; 1; 0; 0; 0; 0; 0] = Some (st, evs) /\
+  In (ERetFetch 0 0 7%Z) evs.
+Proof. exact recheck_saves. Qed.
+Print Assumptions C19_recheck_saves.
+
+Theorem C19_classic_window_handled :
+  exists pre st evs,
+    run (init [[OAdd 0 7%Z; OFetch true]; [OAssert 0]]) pre = Some (st, evs) /\
+    pc_of st 0 = PNwPark (CFetch true) /\ wg st = GPrep /\ shared st = [0] /\ ws st 0 = WAst /\
+    (exists st1 e1, run st [1; 1; 0; 0; 0; 0] = Some (st1, e1) /\
+       ~ In EPark e1 /\ In (ERetFetch 0 0 7%Z) e1) /\
+    (exists st2 e2, run st [0; 1; 1; 0; 0; 0] = Some (st2, e2) /\
+       In EPark e2 /\ In (EWake 1) e2 /\ In (ERetFetch 0 0 7%Z) e2).
+Proof. exact classic_window_handled. Qed.
+Print Assumptions C19_classic_window_handled.
+
+(* non-vacuity: the hypotheses of C19_no_lost_wakeup / C19_wakeup_is_near_partial and of
+   C19_done_detaches are met by non-trivial reachable states / runs *)
+Theorem C19_parked_with_asserted_reachable :
+  exists st, reachable st /\ parked_in_fetch st /\ attached st 0 /\ ws st 0 = WAst /\
+             In 0 (shared st) /\ signalling st 1.
+Proof. exact parked_with_asserted_reachable. Qed.
+Print Assumptions C19_parked_with_asserted_reachable.
+
+Theorem C19_done_race_example :
+  exists st evs,
+    run (init [[OAdd 0 7%Z; ODone; OAdd 0 8%Z; OFetch true]; [OAssert 0]])
+        [0; 0; 0; 1; 1; 1; 0; 0; 0; 0; 0; 0; 1; 1; 1; 1; 0; 0; 0; 0; 0; 0; 0; 0; 0; 0; 0] = Some (st, evs) /\
+    In EPark evs /\ In (EPull 0) evs /\ In (ERetDone 0) evs /\ In (ERetFetch 0 0 8%Z) evs.
+Proof. exact done_race_example. Qed.
+Print Assumptions C19_done_race_example.
+
+Theorem C19_no_panic : forall st, reachable st ->
+  (forall t, pc_of st t <> PPanic) /\ (forall c, pc_of st 0 = PNwPark c -> wg st <> GPark).
+Proof. exact no_panic_lemma. Qed.
+Print Assumptions C19_no_panic.
